@@ -148,15 +148,31 @@ func c09Finish(dis1 string, out1, log1 *symio.Writer) {
 	verif.Reach("compared")
 }
 
-// patchStr replaces the string constant equal to placeholder by s.
+// patchConst replaces the constant equal to the (concrete) placeholder by v.
+// The index is found before anything symbolic is stored, so a symbolic value
+// can never be mistaken for a later placeholder.
 func patchConst(p *bcl.Prog, placeholder any, v any) {
-	for i, c := range bcl.VerifConsts(p) {
-		if c == placeholder {
-			bcl.VerifSetConst(p, i, v)
-			return
+	patchConsts(p, []any{placeholder}, []any{v})
+}
+
+func patchConsts(p *bcl.Prog, placeholders []any, vals []any) {
+	consts := bcl.VerifConsts(p)
+	idx := make([]int, len(placeholders))
+	for k, ph := range placeholders {
+		idx[k] = -1
+		for i, c := range consts {
+			if c == ph {
+				idx[k] = i
+				break
+			}
+		}
+		if idx[k] < 0 {
+			panic("placeholder constant not found")
 		}
 	}
-	panic("c09: placeholder constant not found")
+	for k, i := range idx {
+		bcl.VerifSetConst(p, i, vals[k])
+	}
 }
 
 var c09StrLens = [][]int{
